@@ -51,6 +51,15 @@ func c19Call(seq []declKind) string {
 	return generator.WriteDeclarations(decls)
 }
 
+// seqList is the replayable form of a sequence: [id, content, priority] triples.
+func seqList(seq []declKind) []any {
+	out := make([]any, len(seq))
+	for i, k := range seq {
+		out[i] = []any{k.id, k.content, k.prio}
+	}
+	return out
+}
+
 func seqString(seq []declKind) string {
 	s := make([]string, len(seq))
 	for i, k := range seq {
@@ -59,39 +68,35 @@ func seqString(seq []declKind) string {
 	return strings.Join(s, " ")
 }
 
-// c19Clauses12 checks clauses 1 and 2 on one output; returns clause, detail.
+// c19Clauses12 checks clauses 1 and 2 on one output; returns clause, detail. The admissible
+// outputs are generated, not parsed: for every split of the distinct IDs into a priority group and
+// an ordinary group that the supplied flags allow (an ID supplied with both flags may be in
+// either), and every choice of one supplied content per ID, the text is <priority IDs ascending>
+// then <other IDs ascending>, each content followed by a newline.
 func c19Clauses12(seq []declKind, out string) (string, string) {
-	// parse: contents are single letters followed by \n
-	if len(out)%2 != 0 {
-		return "exactly-once", fmt.Sprintf("output %q is not a sequence of content+newline", out)
-	}
-	contents := map[string]map[string]bool{}
+	contents := map[string][]string{}
 	canPrio := map[string]bool{}
 	canNon := map[string]bool{}
 	for _, k := range seq {
-		if contents[k.id] == nil {
-			contents[k.id] = map[string]bool{}
+		dup := false
+		for _, c := range contents[k.id] {
+			dup = dup || c == k.content
 		}
-		contents[k.id][k.content] = true
+		if !dup {
+			contents[k.id] = append(contents[k.id], k.content)
+		}
 		if k.prio {
 			canPrio[k.id] = true
 		} else {
 			canNon[k.id] = true
 		}
 	}
-	n := len(out) / 2
-	if n != len(contents) {
-		return "exactly-once", fmt.Sprintf("%d declarations emitted for %d distinct IDs (output %q)", n, len(contents), out)
-	}
-	// The output carries contents only; an assignment of distinct IDs to the
-	// emitted contents must exist such that: a priority group precedes a
-	// non-priority group, each in ascending ID order. IDs are a<b<c, so we
-	// enumerate the splits: choose which IDs go to the priority group.
 	ids := make([]string, 0, len(contents))
 	for id := range contents {
 		ids = append(ids, id)
 	}
 	sort.Strings(ids)
+	lengthOK := false
 	for mask := 0; mask < 1<<len(ids); mask++ {
 		var pg, ng []string
 		ok := true
@@ -112,16 +117,28 @@ func c19Clauses12(seq []declKind, out string) (string, string) {
 			continue
 		}
 		order := append(pg, ng...)
-		match := true
-		for i, id := range order {
-			if out[2*i+1] != '\n' || !contents[id][string(out[2*i])] {
-				match = false
-				break
+		// every choice of content per ID
+		var rec func(i int, acc string) bool
+		rec = func(i int, acc string) bool {
+			if i == len(order) {
+				if len(acc) == len(out) {
+					lengthOK = true
+				}
+				return acc == out
 			}
+			for _, c := range contents[order[i]] {
+				if rec(i+1, acc+c+"\n") {
+					return true
+				}
+			}
+			return false
 		}
-		if match {
+		if rec(0, "") {
 			return "", ""
 		}
+	}
+	if !lengthOK {
+		return "exactly-once", fmt.Sprintf("output %q is not one content + newline per distinct ID (%d distinct IDs)", out, len(ids))
 	}
 	return "order", fmt.Sprintf("output %q is not <priority IDs ascending><other IDs ascending> with one content per distinct ID", out)
 }
@@ -145,7 +162,7 @@ func canonicalArrangement(seq []declKind) []declKind {
 
 func C19(tier string) *evid.Report {
 	r := evid.NewReport("C19", tier)
-	r.Rule = "every sequence of declarations up to length L over {a,b,c}x{x,y}x{prio,not}, every sequence up to length L-1 over {empty,a,b}x{x,y}x{prio,not}, and every distinct arrangement of multisets of size 13..16 over <=3 kinds (content a function of the ID); a case is the sequence itself; non-trivial = at least two declarations with >=2 distinct IDs or a repeated ID"
+	r.Rule = "every sequence of declarations up to length L over {a,b,c}x{x,y}x{prio,not}, every sequence up to length L-1 over {empty,a,b}x{x,y}x{prio,not} and over {a,b}x{empty content, x, y+newline}x{prio,not}, and every distinct arrangement of multisets of size 13..16 over <=3 kinds (content a function of the ID); a case is the sequence itself; non-trivial = at least two declarations with >=2 distinct IDs or a repeated ID"
 	r.Assumptions = []string{"the in-place sort of the argument slice is not part of the property"}
 	maxLen, capArr := 5, 4000
 	if tier == "thorough" {
@@ -178,7 +195,7 @@ func C19(tier string) *evid.Report {
 		}
 		if cl, det := c19Clauses12(seq, out); cl != "" {
 			r.Fail(evid.Failure{Clause: "C19/" + cl, Sig: cl, Detail: "input [" + ss + "]: " + det, Cost: len(seq), Family: "F-decls",
-				Extra: map[string]any{"decls": ss}, Observed: out})
+				Extra: map[string]any{"decls": ss, "decl_list": seqList(seq)}, Observed: out})
 		}
 		if contentIsFunctionOfID(seq) {
 			canon := canonicalArrangement(seq)
@@ -190,7 +207,7 @@ func C19(tier string) *evid.Report {
 			}
 			if co != out {
 				r.Fail(evid.Failure{Clause: "C19/permutation-invariance", Sig: "perm", Detail: fmt.Sprintf("input [%s] gives %q but arrangement [%s] gives %q", ss, out, ck, co),
-					Cost: len(seq), Family: "F-decls", Extra: map[string]any{"decls": ss}, Expected: co, Observed: out})
+					Cost: len(seq), Family: "F-decls", Extra: map[string]any{"decls": ss, "decl_list": seqList(seq)}, Expected: co, Observed: out})
 			}
 		}
 	}
@@ -210,6 +227,16 @@ func C19(tier string) *evid.Report {
 	// the same with the empty string among the IDs (it is an ID like any other), one level shorter
 	kinds = c19Kinds("", "a", "b")
 	maxLen--
+	rec(nil)
+	// contents that are empty or already end with a newline
+	kinds = nil
+	for _, id := range []string{"a", "b"} {
+		for _, ct := range []string{"", "x", "y\n"} {
+			for _, p := range []bool{false, true} {
+				kinds = append(kinds, declKind{id, ct, p})
+			}
+		}
+	}
 	rec(nil)
 	maxLen++
 	kinds = c19Kinds()
@@ -324,7 +351,23 @@ func init() {
 	replayers["C19"] = func(f *evid.Failure) int {
 		txt, _ := f.Extra["decls"].(string)
 		var seq []declKind
+		if l, ok := f.Extra["decl_list"].([]any); ok {
+			txt = ""
+			for _, e := range l {
+				t, _ := e.([]any)
+				if len(t) == 3 {
+					id, _ := t[0].(string)
+					ct, _ := t[1].(string)
+					pr, _ := t[2].(bool)
+					seq = append(seq, declKind{id, ct, pr})
+				}
+			}
+			txt = seqString(seq)
+		}
 		for _, w := range strings.Fields(txt) {
+			if f.Extra["decl_list"] != nil {
+				break
+			}
 			switch len(w) {
 			case 3:
 				seq = append(seq, declKind{id: w[0:1], content: w[1:2], prio: w[2] == 'T'})
